@@ -72,8 +72,10 @@ def run_impl(case, d):
     s1, s2 = _steps(case["ranks"]), _steps({int(k): v for k, v in case["ranks2"].items()})
     if not s1 or not s2:
         return {"skip": True}
-    lc = LabeledTrace("ctl", t=Trace(trace_files=dict(p1), trace_dir=d1))
-    lt = LabeledTrace("tst", t=Trace(trace_files=dict(p2), trace_dir=d2))
+    # a quarter of the cases give both traces the same label (the tool then renames the test trace itself)
+    same_label = rng.random() < 0.25
+    lc = LabeledTrace("same" if same_label else "ctl", t=Trace(trace_files=dict(p1), trace_dir=d1))
+    lt = LabeledTrace("same" if same_label else "tst", t=Trace(trace_files=dict(p2), trace_dir=d2))
     symc, symt = lc.t.symbol_table.get_sym_table(), lt.t.symbol_table.get_sym_table()
     fc = {r: fw.dump_frame(lc.t.traces[r], symc) for r in sorted(lc.t.traces)}
     ft = {r: fw.dump_frame(lt.t.traces[r], symt) for r in sorted(lt.t.traces)}
@@ -84,14 +86,15 @@ def run_impl(case, d):
         trank, titer = _draw(rng, case["ranks2"], s2)
     dev = rng.choice(["ALL", "CPU", "GPU"])
     short = rng.random() < 0.5
-    params = {"crank": crank, "citer": citer, "trank": trank, "titer": titer, "dev": dev, "short": short}
+    params = {"crank": crank, "citer": citer, "trank": trank, "titer": titer, "dev": dev, "short": short, "same_label": same_label}
     out = {}
     try:
         df = TraceDiff.compare_traces(lc, lt, crank, trank, citer, titer, DeviceType[dev], short)
         rows = {}
+        cl, tl = lc.label, lt.label
         for k, rec in zip(df.index, df.to_dict("records")):
-            rows[str(k)] = [fw.as_int(rec["ctl_counts"]), fw.as_int(rec["tst_counts"]), fw.as_int(rec["ctl_total_duration"]),
-                            fw.as_int(rec["tst_total_duration"]), fw.as_int(rec["diff_counts"]), fw.as_int(rec["diff_duration"]),
+            rows[str(k)] = [fw.as_int(rec[f"{cl}_counts"]), fw.as_int(rec[f"{tl}_counts"]), fw.as_int(rec[f"{cl}_total_duration"]),
+                            fw.as_int(rec[f"{tl}_total_duration"]), fw.as_int(rec["diff_counts"]), fw.as_int(rec["diff_duration"]),
                             {"+": 1, "-": -1, "=": 0}[rec["counts_change_categories"]]]
         out["rows"] = rows
         out["dup_index"] = len(set(df.index)) != len(df.index)
